@@ -672,7 +672,15 @@ def draw_oracle(script, rate, extra=None, self_ty=None, strength=0.5):
             if isinstance(lo_, float) and isinstance(hi_, float) and not (lo_ < hi_ if k.endswith("::new") else lo_ <= hi_):
                 return "DIVERGE"     # rand: `Uniform::new called with low >= high`
             return Sym("uniform")
+        if k == "core::convert::From::from" and (f.get("cgargs") or f.get("gargs") or [""])[0].startswith("rand::distributions::uniform::Uniform<f64>") and args:
+            r_ = load(interp, env, args[0])
+            if isinstance(r_, Agg) and (r_.name or "").startswith("core::ops::range::Range") and list(r_.fields[:2]) == [0.0, 1.0]:
+                return Sym("uniform01")      # `Uniform::from(0.0..=1.0)` / `(0.0..1.0)`: the unit interval
         if k == "rand::distributions::distribution::Distribution::sample":
+            if getattr(load(interp, env, args[0]), "tag", "") == "uniform01":
+                return take(interp, [0.0, 0.25, 1.0])      # `distr.sample(rng)`: one draw of what `rng.sample_iter(distr)` yields
+            if getattr(load(interp, env, args[0]), "tag", "") == "bernoulli":
+                return take(interp, [False, True])
             return Sym("noise")
         if k == "rand::rng::Rng::sample" and len(args) == 2:
             # `rng.sample(distr)`: one draw of what `sample_iter(distr)` yields
@@ -680,7 +688,7 @@ def draw_oracle(script, rate, extra=None, self_ty=None, strength=0.5):
             tag_ = getattr(d_, "tag", "")
             if tag_ == "bernoulli":
                 return take(interp, [False, True])
-            if tag_ == "uniform":
+            if tag_ in ("uniform", "uniform01"):
                 return take(interp, [0.0, 0.25, 1.0])
             if tag_ == "normal":
                 return Sym("noise")
